@@ -30,7 +30,7 @@ struct TapRec { int64_t t; uint64_t ord; Bytes frame; std::string kind; int bss,
 
 // ------------------------------------------------------------------------------------------------ the simulated world
 struct World {
-    EventQueue q; Rng rng; double loss, retry_p, tap_loss; std::vector<TapRec> tap; uint64_t ord; std::map<std::string, uint64_t> faults; std::vector<KeyRec> keys; std::vector<Bss> bss;
+    EventQueue q; Rng rng; double loss, retry_p, tap_loss, eapol_corrupt_p = 0; std::vector<TapRec> tap; uint64_t ord; std::map<std::string, uint64_t> faults; std::vector<KeyRec> keys; std::vector<Bss> bss;
     World() : loss(0), retry_p(0), tap_loss(0), ord(0) {}
     void to_tap(const Bytes& f, const std::string& kind, int b, int s, int kid = -1, const Bytes& plain = Bytes(), const std::string& bad = "") {
         if (rng.chance(tap_loss)) { faults["fault.capture_loss"]++; return; } TapRec r; r.t = q.now; r.ord = ++ord; r.frame = f; r.kind = kind; r.bss = b; r.sta = s; r.kid = kid; r.plain = plain; r.bad = bad; tap.push_back(r); }
@@ -51,7 +51,10 @@ struct Station {
         if (w.rng.chance(w.retry_p)) { Bytes f2 = f; f2[1] |= 0x08; int64_t d = (int64_t)w.rng.range(50, 3000); EapolKey kk = k; w.faults["fault.mac_retry_duplicate"]++; w.q.after(d, [this, from_ap, f2, kk, kind]() { transmit(from_ap, f2, kk, kind + "+retry"); }); }
     }
     void transmit(bool from_ap, const Bytes& f, const EapolKey& k, const std::string& kind) {
-        w.to_tap(f, kind, b.id, id);
+        // the monitor's copy of a handshake message may be damaged (here: inside the MIC field, so the message keeps its class) while the
+        // stations themselves exchange it intact: that exchange completes on the air but must not teach the decrypter a key
+        if (w.eapol_corrupt_p > 0 && w.rng.chance(w.eapol_corrupt_p)) { Bytes ft = f; size_t eo = f.size() - eapol_bytes(k).size(); ft[eo + 81 + w.rng.below(16)] ^= (uint8_t)(1u << w.rng.below(8)); w.faults["fault.eapol_mic_damaged_at_tap"]++; w.to_tap(ft, kind + "+micdamage", b.id, id); }
+        else w.to_tap(f, kind, b.id, id);
         if (w.rng.chance(w.loss)) { w.faults["fault.loss"]++; return; }
         EapolKey kk = k; int64_t d = 200 + (int64_t)w.rng.below(300) + proc_delay; if (from_ap) w.q.after(d, [this, kk]() { sta_rx(kk); }); else w.q.after(d, [this, kk]() { ap_rx(kk); });
     }
@@ -59,6 +62,9 @@ struct Station {
     bool mic_ok(const EapolKey& k, const Bytes& ptk) { uint8_t mic[16]; wcrypto::eapol_mic(Bytes(ptk.begin(), ptk.begin() + 16), k.desc_version(), eapol_bytes(k, true), mic); return memcmp(mic, k.mic, 16) == 0; }
     // ---- authenticator
     void start_handshake() { ap_state = 1; ap_tries = 0; for (int i = 0; i < 32; ++i) anonce[i] = (uint8_t)w.rng.next(); installed_ap = false; send_m1(); }
+    // the station re-associates: the authenticator starts over with a new per-association state (replay counter from 0, new ANonce),
+    // whatever stage the previous exchange had reached; keys of the old association are no longer used
+    void reassociate() { replay = 0; ++ap_timer; ap_state = 0; ap_tries = 0; installed_ap = installed_sta = false; sta_has_ptk = false; last_m1_seen = 0; last_m1_rc = 0; m3_rc = 0; start_handshake(); }
     void send_m1() { EapolKey k; k.version = (uint8_t)(b.cipher == CCMP ? 2 : 1); k.desc_type = b.cipher == CCMP ? 2 : 254; k.key_info = (uint16_t)(desc_version() | 0x08 | 0x80); k.key_len = b.cipher == CCMP ? 16 : 32; k.replay = ++replay; last_m1_rc = k.replay; memcpy(k.nonce, anonce, 32); air(true, k, "m1"); arm(); }
     void send_m3() { EapolKey k; k.version = (uint8_t)(b.cipher == CCMP ? 2 : 1); k.desc_type = b.cipher == CCMP ? 2 : 254; k.key_info = (uint16_t)(desc_version() | 0x08 | 0x40 | 0x80 | 0x100 | (b.cipher == CCMP ? (0x200 | 0x1000) : 0)); k.key_len = b.cipher == CCMP ? 16 : 32; k.replay = ++replay; m3_rc = k.replay; memcpy(k.nonce, anonce, 32);
         k.data = w.rng.bytes(b.cipher == CCMP ? 56 : 24); set_mic(k, ap_ptk); air(true, k, "m3"); arm(); }
@@ -103,6 +109,7 @@ struct WlanEngine : Engine {
         Rng root(seed); Rng cfg = root.fork("cfg"), wl = root.fork("workload");
         Plan p; p.engine = "wlan"; p.mode = "wlan"; p.seed = seed; p.cfg.set("property", "C09");
         World w; w.rng = root.fork("net"); bool strict = cfg.chance(0.6); w.loss = cfg.chance(0.6) ? cfg.unit() * 0.35 : 0; w.retry_p = cfg.chance(0.6) ? cfg.unit() * 0.5 : 0; w.tap_loss = strict ? 0 : (cfg.chance(0.7) ? 0.02 + cfg.unit() * 0.15 : 0);
+        { Rng ec = root.fork("eapolcorrupt"); w.eapol_corrupt_p = ec.chance(0.3) ? 0.02 + ec.unit() * 0.08 : 0; }
         int cfgmode = (int)cfg.below(3);   // 0: psk+ssid, beacons teach the bssid; 1: psk+ssid+bssid; 2: keys supplied directly
         p.cfg.set("strict", strict ? 1 : 0).set("cfgmode", cfgmode).set("wrap", cfg.chance(0.6) ? "radiotap" : "dot11").set("loss", fmt("%.3f", w.loss)).set("retryp", fmt("%.3f", w.retry_p));
         int nb = (int)cfg.small(1, 3); w.bss.resize(nb);
@@ -117,7 +124,8 @@ struct WlanEngine : Engine {
         for (auto& b : w.bss) { int nbeac = (int)cfg.range(cfgmode == 0 ? 1 : 0, 2); for (int i = 0; i < nbeac; ++i) { int64_t t = (int64_t)cfg.below(3000) + i * 100000; Bss* bp = &b; w.q.after(t, [&w, bp, i]() { w.to_tap(beacon(bp->bssid, bp->ssid, (uint16_t)(i + 1), true, bp->cipher == CCMP), "beacon", bp->id, -1); }); } }
         for (auto& sp : stas) {
             Station* s = sp.get(); int64_t t0 = 5000 + (int64_t)cfg.below(200000);
-            if (s->b.cipher >= TKIP) { w.q.after(t0, [s]() { s->start_handshake(); }); if (cfg.chance(0.2)) { int64_t t1 = t0 + 150000 + (int64_t)cfg.below(300000); w.q.after(t1, [s, &w]() { w.faults["fault.rekey"]++; s->start_handshake(); }); } }
+            if (s->b.cipher >= TKIP) { w.q.after(t0, [s]() { s->start_handshake(); }); if (cfg.chance(0.2)) { int64_t t1 = t0 + 150000 + (int64_t)cfg.below(300000); w.q.after(t1, [s, &w]() { w.faults["fault.rekey"]++; s->start_handshake(); }); } 
+                { Rng ra = root.fork(fmt("reassoc%d", s->id).c_str()); if (ra.chance(0.2)) { int64_t t2 = ra.chance(0.6) ? t0 + (int64_t)ra.range(100, 30000) : t0 + 100000 + (int64_t)ra.below(300000); w.q.after(t2, [s, &w]() { w.faults["fault.reassociation_counter_restart"]++; s->reassociate(); }); } } }
             int nd = (int)cfg.small(1, tier == "thorough" ? 30 : 10);
             for (int i = 0; i < nd; ++i) {
                 int64_t t = t0 - 3000 + (int64_t)cfg.below(600000); size_t plen = payload_len(); Bytes payload = wl.bytes(plen); bool ip_payload = cfg.chance(0.4); if (ip_payload) { std::string dsc; payload = gen::ip_random(wl, false, dsc); } bool from_ap = cfg.chance(0.5), qos = cfg.chance(0.4); uint8_t tid = (uint8_t)cfg.below(16); bool retry = cfg.chance(0.1), mf = cfg.chance(0.05); uint8_t frag = mf ? (uint8_t)cfg.below(4) : 0;
@@ -168,7 +176,7 @@ struct WlanEngine : Engine {
     }
 
     // ------------------------------------------------------------------------------------------------ execution
-    struct RefSess { int stage; uint64_t rc1, rc3; uint8_t an[32], sn[32]; bool have; Bytes ptk; bool known; int known_kid; RefSess() : stage(0), rc1(0), rc3(0), have(false), known(false), known_kid(-1) {} };
+    struct RefSess { int stage; uint64_t rc1, rc3; uint8_t an[32], an3[32], sn[32]; bool have; Bytes ptk; bool known; int known_kid; RefSess() : stage(0), rc1(0), rc3(0), have(false), known(false), known_kid(-1) {} };
 
     Verdict execute(const Plan& p, RunStats& st, Trace& tr) {
         using namespace Tins;
@@ -205,9 +213,9 @@ struct WlanEngine : Engine {
                 bool ap_ok = !b.unreg && (cfgmode == 1 || (cfgmode == 0 && ap_known.count(hex(f.bssid(), 6))));
                 if (m == 1) { if (!r.have || ek.replay > r.rc1) { r.have = true; r.stage = 1; r.rc1 = ek.replay; memcpy(r.an, ek.nonce, 32); st.inc("probe.ref_m1_new_attempt"); } else st.inc("probe.ref_m1_duplicate_ignored"); }
                 else if (m == 2) { if (r.have && ek.replay == r.rc1 && r.stage == 1) { memcpy(r.sn, ek.nonce, 32); r.stage = 2; } else if (r.have && r.stage >= 2) st.inc("probe.ref_m2_duplicate_ignored"); }
-                else if (m == 3) { if (r.have && r.stage == 2) { r.stage = 3; r.rc3 = ek.replay; } else if (r.have && r.stage == 3 && ek.replay > r.rc3) { r.rc3 = ek.replay; st.inc("probe.ref_m3_retransmitted_before_m4"); } else if (r.have && r.stage == 3) st.inc("probe.ref_m3_duplicate_ignored"); }
-                else if (m == 4) { if (r.have && r.stage == 3 && ek.replay <= r.rc3 && b.cipher >= TKIP) { Bytes ptk = wcrypto::ptk_of(b.pmk, f.bssid(), sta, r.an, r.sn); uint8_t mic[16]; Bytes z = e; if (z.size() >= 97) std::fill(z.begin() + 81, z.begin() + 97, 0); z.resize(std::min<size_t>(z.size(), 99 + ek.data.size())); wcrypto::eapol_mic(Bytes(ptk.begin(), ptk.begin() + 16), ek.desc_version(), z, mic);
-                        if (memcmp(mic, ek.mic, 16) == 0) { if (ap_ok) { r.ptk = ptk; r.known = true; st.inc("probe.ref_handshake_complete"); } r.stage = 0; r.have = false; } else st.inc("probe.ref_m4_mic_invalid"); } }
+                else if (m == 3) { if (r.have && r.stage == 2) { r.stage = 3; r.rc3 = ek.replay; memcpy(r.an3, ek.nonce, 32); if (memcmp(r.an, r.an3, 32) != 0) st.inc("probe.ref_m3_anonce_differs_from_held_m1"); } else if (r.have && r.stage == 3 && ek.replay > r.rc3) { r.rc3 = ek.replay; memcpy(r.an3, ek.nonce, 32); st.inc("probe.ref_m3_retransmitted_before_m4"); } else if (r.have && r.stage == 3) st.inc("probe.ref_m3_duplicate_ignored"); }
+                else if (m == 4) { if (r.have && r.stage == 3 && ek.replay <= r.rc3 && b.cipher >= TKIP) { Bytes ptk = wcrypto::ptk_of(b.pmk, f.bssid(), sta, r.an3, r.sn); uint8_t mic[16]; Bytes z = e; if (z.size() >= 97) std::fill(z.begin() + 81, z.begin() + 97, 0); z.resize(std::min<size_t>(z.size(), 99 + ek.data.size())); wcrypto::eapol_mic(Bytes(ptk.begin(), ptk.begin() + 16), ek.desc_version(), z, mic);
+                        if (memcmp(mic, ek.mic, 16) == 0) { if (ap_ok) { r.ptk = ptk; r.known = true; st.inc("probe.ref_handshake_complete"); } r.stage = 0; r.have = false; } else { st.inc("probe.ref_m4_mic_invalid"); r.stage = 0; r.have = false;   /* a message 4 that does not verify (damaged copy, stale nonce) ends the attempt: nothing is demanded of this exchange any more, not even when an intact retry follows (histories with damaged messages are outside the property's premise) */ } } }
             }
             // ---- SUT
             std::unique_ptr<PDU> pdu; bool parsed = true;
